@@ -12,7 +12,7 @@ git stash list >/dev/null
 echo "== demo WITH change" >> $LOG
 cargo test --offline --test seeded_demo >> $LOG 2>&1; echo "exit=$?" >> $LOG
 echo "== suite WITH change" >> $LOG
-cargo test --workspace --no-fail-fast --offline 2>&1 | grep -E "^test result|FAILED|failed|^error" >> $LOG; 
+flock /tmp/wt/suite.lock cargo test --workspace --no-fail-fast --offline 2>&1 | grep -E "^test result|FAILED|failed|^error" >> $LOG; 
 # revert the source change only
 git apply -R MUTATION/patch.diff >> $LOG 2>&1 || echo "REVERT FAILED" >> $LOG
 echo "== demo WITHOUT change" >> $LOG
